@@ -266,20 +266,75 @@ def rule_value(ctx, px, root):
         "to distinct constants (crc32 injective on each documented choice set)",
     )
     f = px.func("nunavut.lang.c", "filter_to_static_assertion_value")
-    handled = []
-    for st in f.node.body:
-        if isinstance(st, ast.If) and isinstance(st.test, ast.Call) and ast.unparse(st.test.func) == "isinstance":
-            handled.append(ast.unparse(st.test.args[1]))
-    last = f.node.body[-1]
-    ok = isinstance(last, ast.Raise)
+    objp = f.node.args.args[0].arg
+    KINDS = {"bool": {"bool", "int", "object"}, "int": {"int", "object"}, "str": {"str", "object"}, "float": {"float", "object"}, "NoneType": {"object"}}
+
+    def truth(test, kind):
+        """value of a type test on the parameter for a value of the given kind (None = not decidable)"""
+        if isinstance(test, ast.UnaryOp) and isinstance(test.op, ast.Not):
+            v = truth(test.operand, kind)
+            return None if v is None else not v
+        if isinstance(test, ast.BoolOp):
+            vs = [truth(v, kind) for v in test.values]
+            if isinstance(test.op, ast.And):
+                return False if any(v is False for v in vs) else (None if any(v is None for v in vs) else True)
+            return True if any(v is True for v in vs) else (None if any(v is None for v in vs) else False)
+        if isinstance(test, ast.Call) and ast.unparse(test.func) == "isinstance" and len(test.args) == 2 and ast.unparse(test.args[0]) == objp:
+            ts_ = test.args[1].elts if isinstance(test.args[1], ast.Tuple) else [test.args[1]]
+            return any(ast.unparse(t_) in KINDS[kind] for t_ in ts_)
+        if isinstance(test, ast.Compare) and len(test.ops) == 1 and ast.unparse(test.left) == f"type({objp})" and isinstance(test.ops[0], (ast.Is, ast.Eq)):
+            return ast.unparse(test.comparators[0]) == kind
+        if isinstance(test, ast.Compare) and len(test.ops) == 1 and ast.unparse(test.left) == objp and isinstance(test.ops[0], (ast.Is, ast.IsNot)) \
+                and ast.unparse(test.comparators[0]) == "None":
+            return (kind == "NoneType") == isinstance(test.ops[0], ast.Is)
+        return None
+
+    def resolve(e, kind):
+        if isinstance(e, ast.IfExp):
+            v = truth(e.test, kind)
+            if v is not None:
+                return resolve(e.body if v else e.orelse, kind)
+        return e
+
+    def outcomes(stmts, kind):
+        """set of ('return', expr text) / ('raise',) / ('fall',) the statement list can end in for a value of this kind"""
+        out = set()
+        for i_, st in enumerate(stmts):
+            if isinstance(st, ast.Return):
+                v = resolve(pyfront.subst_locals(f.node, st.value), kind) if st.value is not None else None
+                return out | {("return", ast.unparse(v) if v is not None else "None")}
+            if isinstance(st, ast.Raise):
+                return out | {("raise",)}
+            if isinstance(st, ast.If):
+                v = truth(st.test, kind)
+                res = set()
+                if v is not False:
+                    res |= outcomes(st.body, kind)
+                if v is not True:
+                    res |= outcomes(st.orelse, kind)
+                out |= {r for r in res if r != ("fall",)}
+                if ("fall",) not in res:
+                    return out
+        return out | {("fall",)}
+
+    res = {k: outcomes(f.node.body, k) for k in KINDS}
+    handled = [k for k in ("bool", "int", "str") if res[k] and all(r[0] == "return" for r in res[k])]
+    ok = all(res[k] == {("raise",)} for k in ("float", "NoneType"))
     ctx.ob(R, f.module.rel, f"{f.short} :: any other type fails generation (final raise)", ok,
-           "" if ok else "unknown value types yield a silent constant", f.node.lineno)
-    ok = "bool" in handled and "int" in handled and handled.index("bool") < handled.index("int")
-    ctx.ob(R, f.module.rel, f"{f.short} :: bool handled before int", ok, f"isinstance chain: {handled}", f.node.lineno)
+           "" if ok else f"unknown value types yield a silent constant: float -> {sorted(res['float'])}, None -> {sorted(res['NoneType'])}", f.node.lineno)
+
+    def squash(t):
+        return t.replace(" ", "").replace('"', "'").replace("zlib.", "")
+    as_int = {f"1if{objp}else0", f"int({objp})", f"0ifnot{objp}else1", f"int(bool({objp}))"}
+    ok = bool(res["bool"]) and all(r[0] == "return" and squash(r[1]) in as_int for r in res["bool"]) and \
+        bool(res["int"]) and all(r[0] == "return" and squash(r[1]) in (objp, f"int({objp})") for r in res["int"])
+    ctx.ob(R, f.module.rel, f"{f.short} :: bool handled before int", ok, f"bool -> {sorted(res['bool'])}, int -> {sorted(res['int'])}", f.node.lineno)
     # str -> crc32 of the utf-8 bytes of the whole string
-    src = ast.unparse(f.node)
-    ok = "crc32(bytearray(obj, 'utf-8'))" in src or "crc32(obj.encode(" in src
-    ctx.ob(R, f.module.rel, f"{f.short} :: strings hashed over their complete utf-8 encoding", ok, "", f.node.lineno)
+    crc_forms = {f"crc32(bytearray({objp},'utf-8'))", f"crc32(bytes({objp},'utf-8'))", f"crc32({objp}.encode('utf-8'))", f"crc32({objp}.encode())",
+                 f"crc32({objp}.encode(encoding='utf-8'))"}
+    ok = bool(res["str"]) and all(r[0] == "return" and squash(r[1]).replace("&4294967295", "").replace("&0xffffffff", "").strip("()") in
+                                  {c_.strip("()") for c_ in crc_forms} for r in res["str"])
+    ctx.ob(R, f.module.rel, f"{f.short} :: strings hashed over their complete utf-8 encoding", ok, f"str -> {sorted(res['str'])}", f.node.lineno)
     cfg = yaml.safe_load((root / "src" / "nunavut" / "lang" / "properties.yaml").read_text())
     n = 0
     str_values = {}
